@@ -10,7 +10,9 @@
    (CStr cells) makes lasio raise TypeError (`fmt % text`) whenever the refresh is needed, and
    skip the refresh when STOP holds the very text of the last cell; neither is modelled
    (fmt_index_cell returns the text, the STOP comparison says "different").
-   `fmt % nan` is taken to be "nan" (true of every format without width, sign or space flag).
+   `fmt % nan` is taken to be "nan": true of the float conversions (%f %e %g, any precision)
+   without width, sign or space flag; an integer conversion (%d) makes lasio raise ValueError
+   on a NaN index cell, which is not modelled either.
 
    Oracles (CPython facts, supplied per case by the harness, never modelled):
      fmtv f tok      = f % float(tok)          (numeric formatting of a sample)
